@@ -109,15 +109,15 @@ type c11Env struct {
 	steps   []string
 	failed  bool
 	inconc  bool
-	coldSet []c11Key // cold keys that were set at least once
+	coldSet []c11Key        // cold keys that were set at least once
 	flagged map[string]bool // keys already reported by the direct oracle
 	// what was observed when a fetch looked stale while other clients were
 	// still running (classified at the end, with the complete history)
-	pending  map[int]c11Pending
-	reported map[int]bool // fetches (by seq) already reported when they were observed
+	pending    map[int]c11Pending
+	reported   map[int]bool // fetches (by seq) already reported when they were observed
 	lastHWDesc string
-	val     int64
-	coldSeq int64
+	val        int64
+	coldSeq    int64
 	// timeout of one operation; changed only while no client is running
 	opTimeout time.Duration
 
@@ -929,41 +929,6 @@ func (e *c11Env) fetchQuiescent(n *vfNode, k c11Key, phase string) c11Op {
 func c11TransientCleanerError(msg string) bool {
 	return strings.Contains(msg, "segment has been closed") || strings.Contains(msg, "segment was replaced") ||
 		strings.Contains(msg, "segment not found") || strings.Contains(msg, "file already closed")
-}
-
-// touchAll makes every cursors partition receive a message (used before a
-// forced Clean() when auto-pause is on, so that the pause timer cannot close
-// the log under the cleaner).
-func (e *c11Env) touchAll(n *vfNode, warm []c11Key, phase string) {
-	srv := n.Server()
-	if srv == nil {
-		return
-	}
-	st := srv.metadata.GetStream(cursorsStream)
-	if st == nil {
-		return
-	}
-	np := uint32(len(st.GetPartitions()))
-	seen := map[uint32]bool{}
-	for _, k := range warm {
-		pid := hasher(c11WireKey(k.String())) % np
-		if seen[pid] {
-			continue
-		}
-		if op := e.doSet(n, 0, k, phase); op.OK {
-			seen[pid] = true
-		}
-	}
-	for i := 0; uint32(len(seen)) < np && i < 64; i++ {
-		k := e.newCold()
-		pid := hasher(c11WireKey(k.String())) % np
-		if seen[pid] {
-			continue
-		}
-		if op := e.doSet(n, 0, k, phase); op.OK {
-			seen[pid] = true
-		}
-	}
 }
 
 // evict pushes more than cursorCacheSize distinct keys through the cache.
